@@ -12,7 +12,7 @@ maximize, LS) vs Model/C16_Solve.v.
     returned; for maximize the objective/gradient SciPy received are probed.
 The independent oracle restates the property (residual of the optimality system, KKT conditions, variational inequalities)
 in numpy / Fractions without using the model."""
-import itertools, warnings, contextlib
+import itertools, warnings, contextlib, collections
 from fractions import Fraction
 import numpy as np
 from common import *
@@ -40,6 +40,7 @@ SIG = {
     "nonneg": "ProjectNonnegative|not-the-projection",
     "lm": "LM.solve|not-stationary",
     "lm_nan": "LM.solve|stagnation-returns-nan",
+    "lm_floor": "LM.solve|absolute-nu0-floor-stalls-small-residuals",
     "minimize": "minimize.solve|result-altered",
     "minimize_nojac": "minimize.solve|derivative-free-method-raises-KeyError",
     "maximize": "maximize.solve|not-the-negated-problem",
@@ -100,7 +101,52 @@ def mk_operator(A, form):
     if form == "fun-sparse":
         As = spa.csr_matrix(A)
         return lambda x, flag: As @ x if flag == 1 else As.T @ x
+    if form == "fun-buffer":
+        # a function handle that writes into persistent output buffers and returns them (legal: the caller owns nothing)
+        bufs = {1: np.zeros(A.shape[0]), 2: np.zeros(A.shape[1])}
+        def op(x, flag):
+            np.matmul(A if flag == 1 else A.T, x, out=bufs[flag])
+            return bufs[flag]
+        return op
+    if form == "fun-buffer-shared":
+        # one buffer for both directions (square operators): every call overwrites what the previous call returned
+        assert A.shape[0] == A.shape[1]
+        buf = np.zeros(A.shape[0])
+        def op(x, flag):
+            buf[:] = (A if flag == 1 else A.T) @ x
+            return buf
+        return op
+    if form.startswith("fun-ident"):
+        # identity / denoising operator (or a scaling operator on its unit-weight fast path): the handle hands back its ARGUMENT,
+        # the same object or a view of it, in one or both directions
+        assert A.shape[0] == A.shape[1] and np.array_equal(A, np.eye(A.shape[0])), "alias forms need the identity operator"
+        kind = form[len("fun-ident-"):]
+        ret = {"self": lambda x: x, "view": lambda x: x[:], "stride": lambda x: x[::1], "reshape": lambda x: x.reshape(-1)}
+        fresh = lambda x: np.array(x, dtype=float, copy=True)
+        if kind in ret:
+            f1 = f2 = ret[kind]
+        elif kind == "adjself":
+            f1, f2 = fresh, ret["self"]
+        elif kind == "fwdself":
+            f1, f2 = ret["self"], fresh
+        elif kind == "adjview":
+            f1, f2 = fresh, ret["view"]
+        else:
+            raise ValueError(form)
+        return lambda x, flag: f1(x) if flag == 1 else f2(x)
     raise ValueError(form)
+
+
+ALIAS_IDENT_FORMS = ["fun-ident-self", "fun-ident-view", "fun-ident-stride", "fun-ident-reshape", "fun-ident-adjself", "fun-ident-fwdself", "fun-ident-adjview"]
+
+
+class InputMutated(Exception):
+    pass
+
+
+def _unchanged(name, arr, ref):
+    if not np.array_equal(np.asarray(arr.toarray() if hasattr(arr, "toarray") else arr, dtype=float), np.asarray(ref, dtype=float)):
+        raise InputMutated("the solver modified its argument %s: %s -> %s" % (name, np.asarray(ref).tolist(), np.asarray(arr.toarray() if hasattr(arr, "toarray") else arr).tolist()))
 
 
 def frac_inverse(P):
@@ -141,8 +187,12 @@ def gen_precond(rng, n, kind):
 def drive_cgls(meta, maxit, tol):
     S = solver_mod()
     A = mk_operator(meta["A"], meta["form"])
+    b, x0 = np.array(meta["b"], dtype=float), np.array(meta["x0"], dtype=float)
     with np.errstate(all="ignore"):
-        x, k = S.CGLS(A, np.array(meta["b"], dtype=float), np.array(meta["x0"], dtype=float), maxit, tol, meta["shift"]).solve()
+        x, k = S.CGLS(A, b, x0, maxit, tol, meta["shift"]).solve()
+    _unchanged("b", b, meta["b"]); _unchanged("x0", x0, meta["x0"])
+    if not callable(A):
+        _unchanged("A", A, meta["A"])
     return fl(x), int(k)
 
 
@@ -163,8 +213,12 @@ def drive_pcgls(meta, maxit, tol):
     S = solver_mod()
     A = mk_operator(meta["A"], meta["form"])
     P = spa.csc_matrix(np.array(meta["P"], dtype=float))
+    b, x0 = np.array(meta["b"], dtype=float), np.array(meta["x0"], dtype=float)
     with max_dim_inv(0 if meta["pinv"] == "spsolve" else None), np.errstate(all="ignore"):
-        x, k = S.PCGLS(A, np.array(meta["b"], dtype=float), np.array(meta["x0"], dtype=float), P, maxit, tol, meta["shift"]).solve()
+        x, k = S.PCGLS(A, b, x0, P, maxit, tol, meta["shift"]).solve()
+    _unchanged("b", b, meta["b"]); _unchanged("x0", x0, meta["x0"]); _unchanged("P", P, meta["P"])
+    if not callable(A):
+        _unchanged("A", A, meta["A"])
     return fl(x), int(k)
 
 
@@ -193,8 +247,11 @@ def mk_bound(bd):
 def drive_fista(meta, maxit, abstol):
     S = solver_mod()
     A = mk_operator(meta["A"], meta["form"])
-    x, k = S.FISTA(A, np.array(meta["b"], dtype=float), np.array(meta["x0"], dtype=float), mk_prox(meta), maxit=maxit,
-                   stepsize=meta["t"], abstol=abstol, adaptive=meta["adaptive"]).solve()
+    b, x0 = np.array(meta["b"], dtype=float), np.array(meta["x0"], dtype=float)
+    x, k = S.FISTA(A, b, x0, mk_prox(meta), maxit=maxit, stepsize=meta["t"], abstol=abstol, adaptive=meta["adaptive"]).solve()
+    _unchanged("b", b, meta["b"]); _unchanged("x0", x0, meta["x0"])
+    if not callable(A):
+        _unchanged("A", A, meta["A"])
     return fl(x), int(k)
 
 
@@ -216,10 +273,70 @@ def drive_lm1(meta, maxit, gradtol):
     return fl(x), int(info["nfev"]), fl(info["func"])
 
 
+class _SolveRecorder:
+    """stands in for numpy.linalg inside cuqi.solver._solver while LM runs: records every (matrix, rhs) handed to solve"""
+    def __init__(self, real):
+        self._real, self.calls = real, []
+
+    def __getattr__(self, name):
+        return getattr(self._real, name)
+
+    def solve(self, M, g):
+        self.calls.append((np.array(M, dtype=float), np.array(g, dtype=float)))
+        return self._real.solve(M, g)
+
+
+LM_BRANCHES = collections.Counter()
+
+
+def drive_lm_trace(meta, K):
+    """x_0..x_k (k <= K; from runs with maxit = i, gradtol = 0) and, from one instrumented run, the matrix J^T J + nu I of every
+    iteration together with the observation `nu == 0` (the matrix equals the float J^T J bit for bit)"""
+    import scipy.sparse.linalg as spl
+    S = solver_mod()
+    Ff, Jf = quad_funcs(meta["co"], meta["sparse"])
+    x0 = np.array([meta["x0"]], dtype=float)
+    xs = []
+    for i in range(K + 1):
+        with np.errstate(all="ignore"):
+            x, info = S.LM(Ff, x0.copy(), Jf, maxit=i, gradtol=0.0, nu0=meta["nu0"], sparse=meta["sparse"]).solve()
+        if int(info["nfev"]) < i:
+            break
+        xs.append(float(np.asarray(x).ravel()[0]))
+    _unchanged("x0", x0, [meta["x0"]])
+    rec = _SolveRecorder(S.LA)
+    calls = rec.calls
+    if meta["sparse"]:
+        real = spl.spsolve
+        def spsolve_rec(M, g, *a, **k):
+            calls.append((np.array(M.toarray(), dtype=float), np.array(g, dtype=float)))
+            return real(M, g, *a, **k)
+        ctxm = patched(S.spa.linalg, "spsolve", spsolve_rec)
+    else:
+        ctxm = patched(S, "LA", rec)
+    with ctxm, np.errstate(all="ignore"):
+        S.LM(Ff, x0.copy(), Jf, maxit=len(xs) - 1, gradtol=0.0, nu0=meta["nu0"], sparse=meta["sparse"]).solve()
+    Ms = []
+    for i, (M, g) in enumerate(calls[:len(xs) - 1]):
+        J = Jf(np.array([xs[i]]))
+        JtJ = J.T @ J
+        JtJ = JtJ.toarray() if hasattr(JtJ, "toarray") else np.asarray(JtJ)
+        Ms.append((float(M[0, 0]), bool(M[0, 0] == JtJ[0, 0]), float(M[0, 0] - JtJ[0, 0])))
+    return xs, Ms
+
+
+def lm_branch_labels(meta, xs, Ms):
+    labs = []
+    for i, (M, z, nu) in enumerate(Ms):
+        cls = "nu=0" if z else ("nu>=nu0" if nu >= meta["nu0"] * (1 - 1e-6) else "0<nu<nu0")
+        labs.append(("accept" if xs[i + 1] != xs[i] else "reject") + "@" + cls)
+    return labs
+
+
 def lm2_funcs(p):
-    a, b, c, d = p["a"], p["b"], p["c"], p["d"]
-    Ff = lambda x: np.array([a * (x[1] - x[0] ** 2), b - x[0], c * x[0] * x[1] - d], dtype=float)
-    Jf = lambda x: np.array([[-2 * a * x[0], a], [-1.0, 0.0], [c * x[1], c * x[0]]], dtype=float)
+    a, b, c, d, sg = p["a"], p["b"], p["c"], p["d"], p.get("sigma", 1.0)      # sigma: scale (units) of the residuals
+    Ff = lambda x: sg * np.array([a * (x[1] - x[0] ** 2), b - x[0], c * x[0] * x[1] - d], dtype=float)
+    Jf = lambda x: sg * np.array([[-2 * a * x[0], a], [-1.0, 0.0], [c * x[1], c * x[0]]], dtype=float)
     return Ff, Jf
 
 
@@ -593,6 +710,17 @@ def case_lm_iters(meta):
     return Case(expr=expr, meta=meta, cell="lm/iters/n1/%s/%s" % ("sparse" if meta["sparse"] else "dense", meta["cell"]), kind="EXACT")
 
 
+def case_lm_trace(meta):
+    xs, Ms = drive_lm_trace(meta, meta["K"])
+    for lab in set(lm_branch_labels(meta, xs, Ms)):
+        LM_BRANCHES[lab] += 1
+    expr = "check_lm_trace_run %s %s %s %s %s" % (
+        clist(["(%s, %s, %s)" % (cq(a), cq(b), cq(c)) for a, b, c in meta["co"]]), cq(meta["x0"]), cq(meta["nu0"]),
+        cqvec(xs), clist(["(%s, %s)" % (cq(M), cbool(z)) for M, z, _ in Ms]))
+    return Case(expr=expr, meta=meta, cell="lm/trace/n1/%s/%s" % ("sparse" if meta["sparse"] else "dense", meta["cell"]), kind="EXACT",
+                trivial=len(xs) < 2)
+
+
 def case_lm_conv(meta):
     S = solver_mod()
     if meta["op"] == "lm_conv1":
@@ -601,8 +729,10 @@ def case_lm_conv(meta):
     else:
         Ff, Jf = lm2_funcs(meta["p"])
         x0 = np.array(meta["x0"], dtype=float)
+    x0_in = x0.copy()
     with np.errstate(all="ignore"):
-        x, info = S.LM(Ff, x0, Jf, maxit=meta["maxit"], gradtol=meta["gradtol"], sparse=meta.get("sparse", False)).solve()
+        x, info = S.LM(Ff, x0, Jf, maxit=meta["maxit"], gradtol=meta["gradtol"], sparse=meta.get("sparse", False), **({"nu0": meta["nu0"]} if "nu0" in meta and meta.get("use_nu0") else {})).solve()
+    _unchanged("x0", x0, x0_in)
     k = int(info["nfev"])
     if not np.all(np.isfinite(np.asarray(x, dtype=float))):
         # float-only failure mode (not expressible in the exact-arithmetic model): once f - ftemp rounds to 0 the step is accepted with
@@ -614,8 +744,14 @@ def case_lm_conv(meta):
     g0, g = lm_grad_norm(Ff, Jf, x0), lm_grad_norm(Ff, Jf, x)
     fired = k < meta["maxit"]
     fail = None
-    if fired and g > 1.001 * meta["gradtol"] * g0 + 1e-13:
+    if fired and g > 1.001 * meta["gradtol"] * g0 + 1e-13 * g0:
         fail = "LM stopped after %d iterations at x=%s with |J^T r| = %.3e > gradtol*|g0| = %.3e" % (k, fl(x), g, meta["gradtol"] * g0)
+    elif not fired and meta.get("must_converge") and g > 100 * meta["gradtol"] * g0:
+        # small smooth problems on which LM converges in far fewer iterations: coming back at maxit with a point that is not even
+        # within 100 gradtol of stationarity is a failure of the property (the NaN stagnation finding has its own exact pattern above:
+        # a non-finite point; a finite point with gradtol < |g|/|g0| <= 100 gradtol is the precision-limited plateau and is not judged)
+        fail = ("LM used all %d iterations and returned the non-stationary point x=%s: |J^T r|/|J0^T r0| = %.3e (gradtol %.1e)"
+                % (k, fl(x), g / g0, meta["gradtol"]))
     # info['func'] and info['Jac'] must be the residual and Jacobian AT the returned point
     rr = np.asarray(info["func"], dtype=float)
     JJ = info["Jac"].toarray() if hasattr(info["Jac"], "toarray") else np.asarray(info["Jac"])
@@ -624,8 +760,11 @@ def case_lm_conv(meta):
     if fail is None and not consistent:
         fail = "info['func']/info['Jac'] are not the residual/Jacobian at the returned point"
     expr = "%s" % cbool(consistent)
-    return Case(expr=expr, meta=meta, cell="lm/converged/%s" % meta["cell"], kind="DECISION", trivial=not fired, impl_fail=fail,
-                signature=SIG["lm"] if fail else "")
+    sig = ""
+    if fail:
+        sig = SIG["lm_floor"] if (not fired and meta.get("rho_class") == "floor-dominates") else SIG["lm"]
+    return Case(expr=expr, meta=meta, cell="lm/converged/%s" % meta["cell"], kind="DECISION", trivial=not fired and not meta.get("must_converge"), impl_fail=fail,
+                signature=sig)
 
 
 def case_minimize(meta):
@@ -755,7 +894,7 @@ def case_ls(meta):
 
 BUILDERS = {
     "cgls_iters": case_cgls_iters, "cgls_solve": case_cgls_solve, "pcgls_iters": case_pcgls_iters, "pcgls_solve": case_pcgls_solve,
-    "fista_runs": case_fista_runs, "fista_conv": case_fista_conv, "lm_iters": case_lm_iters, "lm_conv1": case_lm_conv, "lm_conv2": case_lm_conv,
+    "fista_runs": case_fista_runs, "fista_conv": case_fista_conv, "lm_iters": case_lm_iters, "lm_trace": case_lm_trace, "lm_conv1": case_lm_conv, "lm_conv2": case_lm_conv,
     "minimize": case_minimize, "maximize": case_minimize, "lbfgsb": case_lbfgsb, "ls": case_ls,
 }
 
@@ -836,6 +975,46 @@ def metas(ctx):
                     "tol": 1e-6, "maxit": 10, "stopcell": "gamma0=0"})
         out.append({"op": "cgls_solve", "A": A, "b": [0, 0, 0], "x0": [0, 0], "shift": 1.0, "form": form, "shape": "over", "start": "zero",
                     "tol": 1e-6, "maxit": 10, "stopcell": "gamma0=0"})
+    # ---- function handles that hand back their argument / a view of it / a persistent buffer (CGLS, PCGLS, FISTA, ISTA) ----
+    def alias_meta(form, shiftcell, start):
+        n = rng.randint(2, 4)
+        shift = 0.0 if shiftcell == "0" else rng.choice(SHIFTS_POS)
+        if form.startswith("fun-ident"):
+            A, shape = np.eye(n, dtype=int), "square"
+        else:
+            shape = "square" if form == "fun-buffer-shared" else rng.choice(["over", "square", "under"])
+            m_, n = shape_of(rng, shape)
+            if shape == "square":
+                n = m_ = max(n, 2)
+            A = gen_matrix(rng, m_, n, shift).astype(int)
+        m_ = len(A)
+        b = [rng.randint(-5, 5) for _ in range(m_)]
+        if not any(b):
+            b[0] = 1
+        x0 = [0] * n if start == "zero" else [rng.randint(-4, 4) for _ in range(n)]
+        return {"A": np.asarray(A).tolist(), "b": b, "x0": x0, "shift": shift, "form": form, "shape": shape, "start": start}
+    for form, shiftcell in itertools.product(ALIAS_IDENT_FORMS + ["fun-buffer", "fun-buffer-shared"], ["0", "+"]):
+        for _ in range(reps):
+            me = alias_meta(form, shiftcell, "random")
+            out.append(dict(me, op="cgls_iters", K=min(len(me["A"]), len(me["x0"])) + 1))
+            out.append(dict(alias_meta(form, shiftcell, rng.choice(["zero", "random"])), op="cgls_solve", tol=1e-6, maxit=100, stopcell="tol1e-6"))
+            mp = alias_meta(form, "0", "random")
+            n = len(mp["x0"])
+            mp.update(P=gen_precond(rng, n, "general").astype(int).tolist(), pkind="general", pinv=rng.choice(["explicit", "spsolve"]),
+                      shift=0.0 if shiftcell == "0" else rng.choice(SHIFTS_POS))
+            if shiftcell == "0":
+                out.append(dict(mp, op="pcgls_iters", K=min(len(mp["A"]), n) + 1))
+            out.append(dict(mp, op="pcgls_solve", tol=1e-6, maxit=100))
+            if shiftcell == "0":
+                for adaptive in [True, False]:
+                    mf = alias_meta(form, "0", "random")
+                    Af = np.array(mf["A"], dtype=float)
+                    pc, pk = rng.choice([("l1", {"kind": "l1", "strength": 1, "direct": True}), ("nonneg", {"kind": "nonneg"}),
+                                         ("box-none", {"kind": "box", "lo": None, "up": None})])
+                    mf.update(prox=pk, proxcell=pc, adaptive=adaptive, t=2.0 ** -int(np.ceil(np.log2(float(np.sum(Af * Af))))), stepcell="dyadic")
+                    del mf["shift"]
+                    out.append(dict(mf, op="fista_runs", K=6, abstol=0.0))
+                    out.append(dict(mf, op="fista_conv", maxit=200000, abstol=1e-8))
     # ---- PCGLS ----
     for shape, pkind, (form, pinv), shiftcell in itertools.product(["over", "square"], ["identity", "diagonal", "triangular", "general"],
                                                                    [("dense", "explicit"), ("fun", "explicit"), ("sparse", "spsolve"), ("dense", "spsolve")],
@@ -921,6 +1100,47 @@ def metas(ctx):
     for _ in range(ctx.n(6, 60)):
         p = {"a": rng.randint(1, 10), "b": rng.randint(-2, 2), "c": rng.randint(0, 2), "d": rng.randint(-2, 2)}
         out.append({"op": "lm_conv2", "p": p, "x0": [rng.randint(-2, 2), rng.randint(-2, 2)], "maxit": 10000, "gradtol": 1e-8, "cell": "n2"})
+    # ---- LM: residual SCALE x relative floor rho = nu0/sigma^2, step-by-step nu/step/accept traces, stationarity also AT maxit ----
+    # engineered one-unknown problems (found by a search over traces of the unchanged implementation) that between them visit
+    # every combination accept/reject x (nu >= nu0 | 0 < nu < nu0 | nu == 0); label = the rarest branch they were picked for
+    for sparse in [False, True]:
+        for lab, k, co, x0, nu0 in LM_CORPUS:
+            rho = nu0 / 4.0 ** k
+            me = {"co": [list(c) for c in co], "x0": x0, "nu0": nu0, "sparse": sparse, "sigma": 2.0 ** k, "cell": "engineered/%s/sigma2^%d" % (lab, k)}
+            out.append(dict(me, op="lm_trace", K=40))
+            if rho <= 16:
+                out.append(dict(me, op="lm_conv1", maxit=5000, gradtol=1e-6, must_converge=True, use_nu0=True, rho_class="harmless",
+                                cell="n1/engineered/%s/sigma2^%d" % (lab, k)))
+    LM_SCALES = [-10, -5, 0, 5, 10]
+    LM_RHOS = [-20, -10, -3, 3]            # log2(nu0 / sigma^2): the floor is harmless (the unchanged code converges on all of these)
+    for k, lr, sparse in itertools.product(LM_SCALES, LM_RHOS, [False, True]):
+        if not ctx.thorough and sparse and (k, lr) not in [(-10, -3), (0, 3), (10, -10)]:
+            continue
+        sg = 2.0 ** k
+        for _ in range(ctx.n(1, 4)):
+            co = [[rng.randint(0, 3) * sg, rng.randint(-4, 4) * sg, rng.randint(-6, 6) * sg] for _ in range(rng.randint(1, 3))]
+            if not any(c[0] or c[1] for c in co):
+                co[0][1] = sg
+            me = {"co": co, "x0": rng.randint(-8, 8) / 2, "nu0": 2.0 ** lr * sg * sg, "sparse": sparse, "sigma": sg,
+                  "cell": "sigma2^%d/rho2^%d" % (k, lr)}
+            out.append(dict(me, op="lm_trace", K=ctx.n(30, 40)))
+            out.append(dict(me, op="lm_conv1", maxit=5000, gradtol=1e-6, must_converge=True, use_nu0=True, rho_class="harmless", cell="n1/sigma2^%d/rho2^%d" % (k, lr)))
+    # two unknowns (Rosenbrock residuals and the random family) x residual scale x relative floor; oracle: stationarity before OR at maxit
+    for k, lr in itertools.product(LM_SCALES + [None], LM_RHOS):
+        sg = 0.03 if k is None else 2.0 ** k
+        for which in ["rosenbrock", "random"]:
+            if which == "rosenbrock":
+                pp, x0 = {"a": 10, "b": 1, "c": 0, "d": 0, "sigma": sg}, rng.choice([[-1.2, 1.0], [0.0, 0.0], [2.0, -1.0]])
+            else:
+                pp = {"a": rng.randint(1, 10), "b": rng.randint(-2, 2), "c": rng.randint(0, 2), "d": rng.randint(-2, 2), "sigma": sg}
+                x0 = [rng.randint(-2, 2), rng.randint(-2, 2)]
+            out.append({"op": "lm_conv2", "p": pp, "x0": x0, "nu0": 2.0 ** lr * sg * sg, "use_nu0": True, "maxit": 5000, "gradtol": 1e-6,
+                        "must_converge": True, "rho_class": "harmless", "cell": "n2/%s/sigma%s/rho2^%d" % (which, "0.03" if k is None else "2^%d" % k, lr)})
+    # the library's default floor nu0 = 1e-3 with residuals in small units: rho >= 2^10, the floor dominates J^T J (known finding class)
+    for k in [-10, -7]:
+        sg = 2.0 ** k
+        out.append({"op": "lm_conv2", "p": {"a": 10, "b": 1, "c": 0, "d": 0, "sigma": sg}, "x0": [-1.2, 1.0], "maxit": 5000, "gradtol": 1e-6,
+                    "must_converge": True, "rho_class": "floor-dominates", "cell": "n2/rosenbrock/sigma2^%d/default-nu0" % k})
     # ---- wrappers ----
     methods = [None, "BFGS", "L-BFGS-B", "CG", "SLSQP", "TNC", "Nelder-Mead", "Powell", "COBYLA"]
     for op, method, with_grad in itertools.product(["minimize", "maximize"], methods, [True, False]):
@@ -950,23 +1170,44 @@ def metas(ctx):
     return out
 
 
+# (label, log2 sigma, coefficients (a, b, c) of the residuals a x^2 + b x + c already multiplied by sigma, x0, nu0)
+LM_CORPUS = [
+    ("reject@nu>=nu0", 0, [(0.0, -1.0, 5.0), (0.0, 3.0, -5.0)], 2.5, 2.0 ** -10),
+    ("reject@nu>=nu0", 6, [(192.0, 128.0, -320.0), (128.0, 0.0, 128.0), (192.0, 128.0, -384.0)], -1.0, 1.0),
+    ("reject@nu>=nu0", 10, [(3072.0, 0.0, -5120.0), (3072.0, 2048.0, 1024.0)], -2.0, 4.0),
+    ("reject@nu=0", -3, [(0.125, 0.5, -0.75)], -1.5, 1.0),
+    ("reject@nu=0", -6, [(0.0, -0.015625, 0.015625), (0.03125, -0.0625, 0.046875)], 0.0, 2.0 ** -10),
+    ("reject@nu=0", 0, [(0.0, -1.0, -6.0), (3.0, 0.0, -2.0), (2.0, 1.0, -2.0)], -0.5, 4.0),
+    ("accept@0<nu<nu0", -6, [(0.0, 0.015625, 0.078125), (0.0, -0.0625, 0.015625)], -2.0, 1.0),
+    ("accept@0<nu<nu0", 0, [(0.0, 1.0, -2.0), (0.0, -1.0, -6.0)], -0.5, 4.0),
+    ("accept@nu=0", -3, [(0.0, 0.25, 0.5)], 2.5, 4.0),
+    ("reject@0<nu<nu0", -3, [(0.25, -0.375, 0.375)], 0.5, 1.0),
+    ("reject@0<nu<nu0", -6, [(0.03125, 0.015625, 0.046875)], -0.5, 2.0 ** -10),
+    ("reject@0<nu<nu0", 0, [(2.0, -1.0, 2.0), (1.0, -2.0, 0.0)], 0.0, 4.0),
+]
+
 # witnesses of the known findings (fixed inputs)
 W_PCGLS_SHIFT = {"op": "pcgls_solve", "A": [[1, 0], [0, 2], [1, 1]], "b": [1, 2, 3], "x0": [0, 0], "P": [[2, 0], [1, 1]], "pkind": "triangular",
                  "pinv": "explicit", "form": "dense", "shape": "over", "start": "zero", "shift": 1.0, "tol": 1e-6, "maxit": 100}
 W_MAXIMIZE_INFO = {"op": "maximize", "method": None, "with_grad": True, "obj": "quad1", "c": [1, 0, 1], "x0": [3], "cuqiarray": False, "probes": [[0], [2]]}
 W_MIN_NOJAC = {"op": "minimize", "method": "Nelder-Mead", "with_grad": False, "obj": "quad1", "c": [1, 0, 1], "x0": [3], "cuqiarray": False, "probes": [[0], [2]]}
 W_LM_NAN = {"op": "lm_conv2", "p": {"a": 4, "b": -2, "c": 1, "d": 1}, "x0": [0, 0], "maxit": 10000, "gradtol": 1e-08, "cell": "n2"}
-WITNESSES = {SIG["pcgls_shift"]: W_PCGLS_SHIFT, SIG["maximize_info"]: W_MAXIMIZE_INFO, SIG["minimize_nojac"]: W_MIN_NOJAC, SIG["lm_nan"]: W_LM_NAN}
+W_LM_FLOOR = {"op": "lm_conv2", "p": {"a": 10, "b": 1, "c": 0, "d": 0, "sigma": 2.0 ** -10}, "x0": [-1.2, 1.0], "maxit": 10000, "gradtol": 1e-08,
+              "must_converge": True, "rho_class": "floor-dominates", "cell": "n2/rosenbrock/sigma2^-10/default-nu0"}
+WITNESSES = {SIG["pcgls_shift"]: W_PCGLS_SHIFT, SIG["maximize_info"]: W_MAXIMIZE_INFO, SIG["minimize_nojac"]: W_MIN_NOJAC, SIG["lm_nan"]: W_LM_NAN,
+             SIG["lm_floor"]: W_LM_FLOOR}
 
 
 def run(ctx):
     import random as _r
     cases = []
+    LM_BRANCHES.clear()
     with warnings.catch_warnings():
         warnings.simplefilter("ignore")
-        for me in [W_PCGLS_SHIFT, W_MAXIMIZE_INFO, W_MIN_NOJAC, W_LM_NAN] + metas(ctx):
+        for me in [W_PCGLS_SHIFT, W_MAXIMIZE_INFO, W_MIN_NOJAC, W_LM_NAN, W_LM_FLOOR] + metas(ctx):
             cases.append(build_case(me, _r.Random(int(hashlib.sha1(json.dumps(me, sort_keys=True, default=str).encode()).hexdigest()[:8], 16))))
-    return Result(cases=cases, rule=RULE,
+    ctx.note("LM trace branches visited (number of traces): %s" % dict(LM_BRANCHES))
+    return Result(cases=cases, rule=RULE, extra={"lm_trace_branches_visited": dict(LM_BRANCHES)},
                   assumptions=["float rounding is not modelled: CGLS/FISTA/LM iterates are compared with the model's exact rationals within 1e-9, PCGLS iterates within 1e-6 "
                                "(relative+absolute), converged points within 1e-6; projections and soft-thresholding are compared exactly on dyadic data",
                                "LA.norm(.)**2 is modelled as the exact sum of squares; tol/abstol/gradtol >= 0",
@@ -1004,7 +1245,9 @@ def classify(meta, detail):
     if op in ("prox_l1", "box", "nonneg"):
         return SIG[op]
     if op.startswith("lm"):
-        return SIG["lm_nan"] if "non-finite" in d else SIG["lm"]
+        if "non-finite" in d:
+            return SIG["lm_nan"]
+        return SIG["lm_floor"] if ("used all" in d and m.get("rho_class") == "floor-dominates") else SIG["lm"]
     if op in ("minimize", "maximize"):
         if "KeyError('jac')" in d:
             return SIG["minimize_nojac"]
@@ -1037,6 +1280,9 @@ def oracle(ctx, meta):
             return m2.impl_fail
         if op == "lm_iters":
             m.update(op="lm_conv1", maxit=10000, gradtol=1e-8)
+            return build_case(m, _r.Random(1)).impl_fail
+        if op == "lm_trace":
+            m.update(op="lm_conv1", maxit=5000, gradtol=1e-6, must_converge=True, use_nu0=True)
             return build_case(m, _r.Random(1)).impl_fail
     return None
 
